@@ -535,6 +535,8 @@ func init() {
 			safely(r, "ruleDiffReaders", func() { ruleDiffReaders(w, r, lib, "lib", "Diff") })
 			safely(r, "ruleNoSharedScratch", func() { ruleNoSharedScratch(w, r, lib, "lib") })
 			safely(r, "ruleEqSize", func() { ruleEqSize(w, r, newNodeTypes(w, lib, "lib")) })
+			// the v1 library as reached through the top-level binary with -v2=false: -p prints the patched document
+			r.Only(func(o Ob) bool { return o.Rule == "R-CLI/R" && strings.HasPrefix(o.Key, "top.") }, func(sub *Report) { safely(sub, "runCLI", func() { runCLI(w, sub, "plumbing") }) })
 			safely(r, "ruleScanErr", func() { ruleScanErr(w, r, lib, "lib") })
 			r.Floor("R-FWD(lib)", 40)
 			r.Floor("R-OPTFWD(lib)", 60)
